@@ -79,6 +79,13 @@ impl DcpsStatusCondition {
 
     pub fn set_enabled_statuses(&mut self, mask: StatusMask) {
         self.enabled_statuses = mask;
+        // Enabling a status that already changed makes the condition true:
+        // wake the wait sets that are already waiting on it
+        if self.get_trigger_value() {
+            for w in self.registered_notifications.drain(..) {
+                w.notify();
+            }
+        }
     }
 
     pub fn get_trigger_value(&self) -> bool {
